@@ -53,3 +53,45 @@ for _k, _v in list(_core._PATCH_REGISTRATIONS.items()):
         _core._PATCH_REGISTRATIONS[_k] = _search_fixed
 
 FIXES = ['CrossHair relib._search corrected to try the empty match at end of string (engine/chfix.py)']
+
+
+# 2. opcode_intercept: `concrete_list[sym_a:sym_b]` is modelled as a lazy SliceView over the LIVE list object. Python copies;
+#    code such as `asts = body[start:stop]; del body[start:stop]; asts[-1]` (pfst's _cut_or_copy_asts) then sees the view
+#    change under its feet (spurious IndexError / wrong elements). Fixed: the view is taken over a snapshot of the list.
+from crosshair import opcode_intercept as _oi          # noqa: E402
+from crosshair.libimpl.builtinslib import SymbolicInt as _SymbolicInt, SymbolicList as _SymbolicList   # noqa: E402
+from crosshair.simplestructs import SliceView as _SliceView  # noqa: E402
+from crosshair.tracers import frame_stack_read as _fsr, frame_stack_write as _fsw  # noqa: E402
+
+_orig_subscr_trace = _oi.SymbolicSubscriptInterceptor.trace_op
+_orig_slice_trace = _oi.SymbolicSliceInterceptor.trace_op
+
+
+def _subscr_trace(self, frame, codeobj, codenum):
+    key = _fsr(frame, -1)
+    container = _fsr(frame, -2)
+    if isinstance(key, slice) and type(container) is list:
+        step = key.step
+        if not (isinstance(step, _oi.CrossHairValue) or step not in (None, 1)):
+            if isinstance(key.start, _SymbolicInt) or isinstance(key.stop, _SymbolicInt):
+                snap = tuple(container)
+                _fsw(frame, -2, _SymbolicList(_SliceView(snap, 0, len(snap))))
+                return
+    return _orig_subscr_trace(self, frame, codeobj, codenum)
+
+
+def _slice_trace(self, frame, codeobj, codenum, _concrete_index_types=(int, float, str)):
+    start = _fsr(frame, -1)
+    stop = _fsr(frame, -2)
+    if not (isinstance(start, _concrete_index_types) and isinstance(stop, _concrete_index_types)):
+        container = _fsr(frame, -3)
+        if type(container) is list and (isinstance(start, _SymbolicInt) or isinstance(stop, _SymbolicInt)):
+            snap = tuple(container)
+            _fsw(frame, -3, _SymbolicList(_SliceView(snap, 0, len(snap))))
+            return
+    return _orig_slice_trace(self, frame, codeobj, codenum)
+
+
+_oi.SymbolicSubscriptInterceptor.trace_op = _subscr_trace
+_oi.SymbolicSliceInterceptor.trace_op = _slice_trace
+FIXES.append('CrossHair opcode_intercept: list[sym:sym] views a snapshot of the list instead of the live object (engine/chfix.py)')
